@@ -139,7 +139,7 @@ func (vd *validator) validated(v ssa.Value, kind string, at *ssa.BasicBlock) boo
 	for _, b := range vd.fn.Blocks {
 		for _, ins := range b.Instrs {
 			c, ok := ins.(*ssa.Call)
-			if !ok || c.Call.StaticCallee() == nil || c.Call.StaticCallee().String() != "("+load.Module+"/circuit.Seen)."+kind {
+			if !ok || c.Call.StaticCallee() == nil || (c.Call.StaticCallee().String() != "("+load.Module+"/circuit.Seen)."+kind && c.Call.StaticCallee().String() != "(*"+load.Module+"/circuit.Seen)."+kind) {
 				continue
 			}
 			if !sameSource(c.Call.Args[1], v) {
@@ -260,7 +260,7 @@ func (vd *validator) sliceValidated(s ssa.Value, kind string) bool {
 // C14valid: gates are constructed from validated wires only; success implies all wires assigned and the declared gate count.
 func C14valid(p *load.Program, run *report.Run) {
 	run.Rule("gate-wires-validated", "every Gate stored into the result has its inputs passed through Seen.Get (no error, seen) and its output through Seen.Set (no error) on every path")
-	run.Rule("success-after-all-seen", "the successful return is reached only after the all-wires-seen loop and the gate-count comparison")
+	run.Rule("success-after-all-seen", "the successful return is reached only after the all-wires-seen check — a loop over the whole table with an error exit for an unset wire, or a method of the table whose 'some wire unassigned' answer ends the parser with an error and which, interpreted on a fresh and on a completely assigned table, answers yes and no — and after the gate-count comparison")
 	for _, name := range []string{"ParseMPCLC", "ParseBristol"} {
 		fn, err := p.Func("circuit", name)
 		if err != nil {
@@ -372,6 +372,38 @@ func C14valid(p *load.Program, run *report.Run) {
 					if ia, ok := u.X.(*ssa.IndexAddr); ok {
 						if nt, ok := ia.X.Type().(*types.Named); ok && nt.Obj().Name() == "Seen" && blockInCycle(lb) && fullScan(lb, ia.X, b) {
 							allSeen = true
+						}
+					}
+				}
+				// the scan is a method of the table: `if w, ok := seen.Unseen(); ok { return error }` — the edge that
+				// does not end in an error dominates the return, and the method, interpreted on a fresh and on a
+				// completely assigned table, reports "some wire unassigned" exactly on the fresh one
+				{
+					cond := iff.Cond
+					neg := false
+					if u, ok := cond.(*ssa.UnOp); ok && u.Op == token.NOT {
+						cond, neg = u.X, true
+					}
+					if ex, ok := cond.(*ssa.Extract); ok {
+						if c, ok := ex.Tuple.(*ssa.Call); ok && c.Call.StaticCallee() != nil && c.Call.StaticCallee().Signature.Recv() != nil &&
+							strings.HasSuffix(strings.TrimPrefix(c.Call.StaticCallee().Signature.Recv().Type().String(), "*"), "/circuit.Seen") && len(c.Call.Args) == 1 {
+							errEdge, okEdge := 0, 1
+							if neg {
+								errEdge, okEdge = 1, 0
+							}
+							if errorExit(lb.Succs[errEdge]) && lb.Succs[okEdge].Dominates(b) {
+								fresh, full, why := seenScan(p, c.Call.StaticCallee().Name())
+								good := why == "" && len(fresh) == 2
+								for i := range fresh {
+									// the parser errs when the flag is true (or false if negated)
+									if fresh[i] != wv(!neg) || full[i] != wv(neg) {
+										good = false
+									}
+								}
+								if good {
+									allSeen = true
+								}
+							}
 						}
 					}
 				}
